@@ -298,10 +298,39 @@ impl<'a> GeneratorState<'a> {
             ExprType::AbsoluteX(varname) => self.compiler_state.get_variable(varname),
             _ => unreachable!()
         };
+        // Split-port cartridge RAM can't be shifted in place (a read-modify-write instruction
+        // reads and writes the same address): go through the accumulator
+        #[cfg(feature = "atari2600")]
+        let split_port = matches!(v.memory, VariableMemory::Superchip | VariableMemory::MemoryOnChip(_));
+        #[cfg(not(feature = "atari2600"))]
+        let split_port = false;
         if let ExprType::Immediate(value) = right {
             if self.acc_in_use { self.sasm(PHA)?; }
             for _ in 0..*value {
-                if let Operation::Bls(_) = op {
+                if split_port {
+                    if let Operation::Bls(_) = op {
+                        self.asm(LDA, left, pos, false)?;
+                        self.asm(ASL, &ExprType::Nothing, pos, false)?;
+                        self.asm(STA, left, pos, false)?;
+                        self.asm(LDA, left, pos, true)?;
+                        self.asm(ROL, &ExprType::Nothing, pos, false)?;
+                        self.asm(STA, left, pos, true)?;
+                    } else {
+                        self.asm(LDA, left, pos, true)?;
+                        if v.signed {
+                            // Carry = sign bit, so that ROR shifts it in
+                            self.asm(ASL, &ExprType::Nothing, pos, false)?;
+                            self.asm(LDA, left, pos, true)?;
+                            self.asm(ROR, &ExprType::Nothing, pos, false)?;
+                        } else {
+                            self.asm(LSR, &ExprType::Nothing, pos, false)?;
+                        }
+                        self.asm(STA, left, pos, true)?;
+                        self.asm(LDA, left, pos, false)?;
+                        self.asm(ROR, &ExprType::Nothing, pos, false)?;
+                        self.asm(STA, left, pos, false)?;
+                    }
+                } else if let Operation::Bls(_) = op {
                     self.asm(ASL, left, pos, false)?;
                     self.asm(ROL, left, pos, true)?;
                 } else if v.signed {
